@@ -550,9 +550,9 @@ func c18Sequences(r *Run) {
 			{Issuer: cn("CA_One"), ThisUpdate: t0, NextUpdate: t0.Add(24 * time.Hour)},
 			{Issuer: cn("CA_One"), ThisUpdate: t0.Add(time.Hour)},
 		},
-		exts:  []*crlreader.ExtendedCRLMetaInfo{{CRLNumber: big.NewInt(7)}, {CRLNumber: bigFromHex("ffeeddccbbaa99887766554433221100")}},
-		sigs:  [][]byte{ca1.Cert.Raw, ca2.Cert.Raw},
-		locs:  []*core.CRLLocations{{CRLDistributionPoints: []string{"http://a.example/x.crl"}}, {CRLUrl: "http://b.example/y.crl"}},
+		exts: []*crlreader.ExtendedCRLMetaInfo{{CRLNumber: big.NewInt(7)}, {CRLNumber: bigFromHex("ffeeddccbbaa99887766554433221100")}},
+		sigs: [][]byte{ca1.Cert.Raw, ca2.Cert.Raw},
+		locs: []*core.CRLLocations{{CRLDistributionPoints: []string{"http://a.example/x.crl"}}, {CRLUrl: "http://b.example/y.crl"}},
 		ents: []*pkix.RevokedCertificate{
 			{SerialNumber: big.NewInt(5), RevocationTime: t0},
 			{SerialNumber: big.NewInt(5), RevocationTime: t0.Add(-time.Hour), Extensions: []pkix.Extension{{Id: stOidReason, Value: []byte{0x0a, 0x01, 0x01}}}},
